@@ -16,7 +16,8 @@ from simkit import lfricgen, lfricsim
 PROPERTY = "C22"
 ENGINE = "E5-lfric-dm"
 LEVEL = "exploration"
-FEATURES = {"stencil", "builtins", "readinc", "cont_write", "anyspace"}
+FEATURES = {"stencil", "builtins", "readinc", "cont_write", "anyspace",
+            "vector"}
 RULE = ("Seeded invokes of 1-4 calls (generated kernels with 1-4 field "
         "arguments: read/write/readwrite/inc/readinc on W0-W3/Wtheta/"
         "any_space/any_discontinuous_space, stencils cross/region/x1d with "
@@ -47,8 +48,10 @@ ASSUMPTIONS = [
     "Observable-harm reading of the property: a stale value is reported "
     "when it reaches an owned dof or a dof the flags call clean, or when "
     "flags call a copy clean that differs from its owner.",
-    "Inter-grid kernels, CMA operators, operators, field vectors and "
-    "reductions are not generated."]
+    "Inter-grid kernels, CMA operators, operators and reductions are not "
+    "generated. A field vector's components are fields of their own in "
+    "the model (own initial halo state each); kernels always receive the "
+    "whole vector."]
 
 
 def plan(tier):
@@ -121,6 +124,13 @@ def apply_history(psy, ops, counters=None):
         except TransformationError as err:
             out.append((kind, "refused"))
         except (GenerationError, InternalError, Exception) as err:
+            if kind == "move" and isinstance(err, GenerationError):
+                # MoveTrans refuses an invalid location through
+                # Node.is_valid_location, which raises GenerationError
+                out.append((kind, "refused"))
+                if counters is not None:
+                    counters.inc2("transformations", kind + ":refused")
+                continue
             out.append((kind, "error:" + type(err).__name__))
             if counters is not None:
                 counters.inc2("aborted_internal_error",
